@@ -71,11 +71,12 @@ def peer_ledger(o, i):
 
 CFG = dict(
     streams=[('flow', 3000, 60000, 'http2test'), ('sched', 1000, 20000, 'http2test'), ('h2rx', 1500, 30000, 'http2test'),
-             ('h2tx', 1500, 30000, 'http2test'), ('h2stx', 400, 8000, 'http2test'), ('rxblocked', 2, 8)],
-    oracle_ops={'schedtrace', 'h2stx', 'rxblocked'},
+             ('h2tx', 1500, 30000, 'http2test'), ('h2stx', 400, 8000, 'http2test'), ('rxblocked', 2, 8),
+             ('h2trx', 600, 12000, 'http2test')],
+    oracle_ops={'schedtrace', 'h2stx', 'rxblocked', 'h2trx'},
     self_evident=peer_ledger,
     twophase_ops={'sched', 'schedtrace'},
-    http2_ops={'flow', 'sched', 'schedtrace', 'h2rx', 'h2tx', 'h2stx'},
+    http2_ops={'flow', 'sched', 'schedtrace', 'h2rx', 'h2tx', 'h2stx', 'h2trx'},
     rule=("(a) operation sequences on the real inflow / outflow (init, add, take, takeInflows, outflow add/take/available, stream "
           "and connection level) with boundary values 0, 1, 4095..4097, 65535, 2^31-2, 2^31-1, negative and overflowing "
           "updates; every return value, panic and the final counters compared with the model; (b) scheduler sequences "
@@ -87,7 +88,11 @@ CFG = dict(
           "every WINDOW_UPDATE (stream and connection, exact increments incl. the 4 KiB batching), RST_STREAM and GOAWAY after "
           "every event; (d) h2tx: the real client transport (upstream's deterministic client-connection tester) uploading a "
           "body under schedules of body production, WINDOW_UPDATE and SETTINGS_INITIAL_WINDOW_SIZE / MAX_FRAME_SIZE changes "
-          "(windows driven negative, frame size lowered mid-upload), comparing every DATA frame. non-trivial = sequence with "
+          "(windows driven negative, frame size lowered mid-upload), comparing every DATA frame; (e) h2trx: the real client "
+          "transport RECEIVING up to six response bodies (DATA of boundary sizes, padded or not, END_STREAM at any point) while the "
+          "application reads parts, reads everything or closes early or after the response has ended: once every body is closed "
+          "the connection-level credit returned equals what the server sent up to the 4 KiB batch (ledger on the implementation's "
+          "own WINDOW_UPDATE frames; this side has no Lean model). non-trivial = sequence with "
           ">= 3 operations"),
     assumptions=[
         "Go int32/uint32 conversions are modelled by wrap32/toU32 (two's complement)",
